@@ -82,6 +82,11 @@ def build_pool(rng, n):
         seen.add(t)
         pool.append(t.encode("utf-8"))
     docs = [t for t in corpus.texts() if len(t) < 6000]
+    # documents written on a single line without a final line break (the last output line is long: line-buffered sinks)
+    for m in (20, 45, 120):
+        t = "<svg>" + "".join('<rect xy="%d %d" wh="3" text="r%d"/>' % (i * 4, i % 7, i) for i in range(m)) + "</svg>"
+        seen.add(t)
+        pool.append(t.encode("utf-8"))
     while len(pool) < n:
         k = rng.random()
         if k < 0.3:
@@ -247,12 +252,25 @@ def sequential_histories(ctx, refs, fe, pool, n_hist, length):
                 acc.cases += 1
                 case = dict(kind="history", via=via, history=list(seq), pos=pos, input=data, cfg=cfg)
                 if via == "worker":
-                    r = w.run(data, cfg, api="stream")
+                    short = (pos % 3 == 0)
+                    r = w.run(data, cfg, api=("streamshort" if short else "stream"))
                     acc.evaluations += 1
                     got = lib_view(r)
                     if not same(ref, got):
-                        record(acc, "history-dependence", "history:worker/%s-vs-%s" % (ref[0], got[0]), case, ref, got,
-                               "response at position %d of a sequential history differs from a fresh process" % pos)
+                        # is it the history, or the sink? (the short-write sink accepts 7 bytes per write() call)
+                        alone = None
+                        if short:
+                            w1 = core.Worker()
+                            try:
+                                alone = lib_view(w1.run(data, cfg, api="streamshort"))
+                            finally:
+                                w1.close()
+                        if short and not same(ref, alone):
+                            record(acc, "frontends-disagree", "disagree:lib-stream-short-writes/%s-vs-%s" % (ref[0], alone[0]), case, ref, alone,
+                                   "transform_stream into a sink that accepts a few bytes per write() call delivers something else than the other front-ends")
+                        else:
+                            record(acc, "history-dependence", "history:worker/%s-vs-%s" % (ref[0], got[0]), case, ref, got,
+                                   "response at position %d of a sequential history differs from a fresh process" % pos)
                 else:
                     status, ct, body, note = fe["server"].post(data, add_metadata=bool(cfg))
                     acc.evaluations += 1
